@@ -910,3 +910,92 @@ pub mod ifma {
         t.0.iter().map(|c| raw_of(&(c.verif_raw()).0)).collect()
     }
 }
+
+// ------------------------------------------------------------------------------------------
+// H6: monitors at the entry of the vector field kernels (documented lane bounds)
+// ------------------------------------------------------------------------------------------
+
+/// Guarded calls at the top of the vector-field methods check the documented pre-condition
+/// on the actual lanes and record the largest excess seen per kernel on this thread.
+#[cfg(curve25519_dalek_backend = "simd")]
+pub mod monitor {
+    extern crate std;
+    use alloc::collections::BTreeMap;
+    use alloc::vec::Vec;
+    use core::cell::{Cell, RefCell};
+
+    std::thread_local! {
+        static MAXIMA: RefCell<BTreeMap<&'static str, (f64, u64)>> = const { RefCell::new(BTreeMap::new()) };
+        static ENFORCE: Cell<bool> = const { Cell::new(true) };
+    }
+
+    /// Turn enforcement (panic on a violated bound) on or off for this thread; maxima are
+    /// recorded either way.
+    pub fn enforce(on: bool) {
+        ENFORCE.with(|e| e.set(on));
+    }
+    pub fn reset() {
+        MAXIMA.with(|m| m.borrow_mut().clear());
+    }
+    /// `(kernel, largest excess b seen, number of calls)` on this thread since `reset`.
+    pub fn maxima() -> Vec<(&'static str, f64, u64)> {
+        MAXIMA.with(|m| m.borrow().iter().map(|(k, v)| (*k, v.0, v.1)).collect())
+    }
+
+    fn note(name: &'static str, excess: f64, bound: f64, what: &str) {
+        MAXIMA.with(|m| {
+            let mut m = m.borrow_mut();
+            let e = m.entry(name).or_insert((f64::MIN, 0));
+            if excess > e.0 {
+                e.0 = excess;
+            }
+            e.1 += 1;
+        });
+        if excess >= bound && ENFORCE.with(|e| e.get()) {
+            panic!(
+                "verif monitor: {} entered with lane excess b = {:.4}, documented pre-condition b < {} ({})",
+                name, excess, bound, what
+            );
+        }
+    }
+
+    pub(crate) fn avx2(name: &'static str, v: &[crate::backend::vector::packed_simd::u32x8; 5], bound: f64) {
+        // lanes of vector i: [a_2i, b_2i, a_2i+1, b_2i+1, c_2i, d_2i, c_2i+1, d_2i+1]
+        let mut worst = f64::MIN;
+        for x in v.iter() {
+            let l: [u32; 8] = unsafe { core::mem::transmute_copy(x) };
+            for (k, limb) in l.iter().enumerate() {
+                if *limb != 0 {
+                    let w = if (k / 2) % 2 == 0 { 26.0 } else { 25.0 };
+                    let e = libm_log2(*limb as f64 + 1.0) - w;
+                    if e > worst {
+                        worst = e;
+                    }
+                }
+            }
+        }
+        note(name, worst, bound, "radix 2^25.5 limbs");
+    }
+
+    #[cfg(all(curve25519_dalek_backend = "unstable_avx512", nightly))]
+    pub(crate) fn ifma(name: &'static str, v: &[crate::backend::vector::packed_simd::u64x4; 5], bits: u32) {
+        let mut worst = f64::MIN;
+        for x in v.iter() {
+            let l: [u64; 4] = unsafe { core::mem::transmute_copy(x) };
+            for limb in l.iter() {
+                if *limb != 0 {
+                    let e = libm_log2(*limb as f64 + 1.0);
+                    if e > worst {
+                        worst = e;
+                    }
+                }
+            }
+        }
+        // "excess" here is the bit length; the bound is the number of bits the kernel may use
+        note(name, worst, bits as f64 + 1e-9, "limb bit length");
+    }
+
+    fn libm_log2(x: f64) -> f64 {
+        x.log2()
+    }
+}
